@@ -327,6 +327,11 @@ class OutputAsync(addons.AddonAsync, block.SBlock):
         self.set_output(0)
 
     def stop(self) -> None:
+        if not self.is_initialized():
+            # stopped before the regular initialization (the simulation ended during
+            # the circuit initialization); the stop_data must be processed nevertheless
+            # and output tasks are counted in the output
+            self.init_regular()
         # do not compare self._ctrl_coro using "is" (descriptors are in play)
         # pylint: disable-next=comparison-with-callable
         if self._stop_data is not None and self._ctrl_coro != self._ctrl_start:
